@@ -404,9 +404,69 @@ Definition st_spec_ok (c : stcase) : bool :=
 Record rdcase := RD { rd_races : nat; rd_died : nat }.
 Definition rd_ok (c : rdcase) : bool := (rd_races c =? 0)%nat && (rd_died c =? 0)%nat.
 
+(** * First attempts through the real ACMEIssuer against a mock ACME CA (class e2e-throttle):
+      [calls] Issue calls for one CA + account released together at instant 0 with
+      RateLimitEvents = n and RateLimitEventsWindow = w; observed at the CA: the arrival instants
+      of their orders (ascending); the same for a second account, and the orders of retries
+      (attempts = 1: the test CA first, not throttled; after the success there the production
+      order of the same call goes through the limiter like a first attempt). *)
+
+Record e2case := E2 {
+  e2_n : nat; e2_w : Z; e2_calls : nat; e2_retries : nat; e2_calls2 : nat;
+  e2_arr : list Z; e2_arr2 : list Z; e2_retry : list Z; e2_failed : nat
+}.
+
+(** admission instants the model gives [c] waiters that arrive together at [t0] at a fresh limiter *)
+Fixpoint burst_times (c : nat) (s : state) (t0 : Z) : list Z :=
+  match c with
+  | O => []
+  | S c' =>
+      match due s with
+      | Some u => let t := Z.max u t0 in
+                  match admit_one s t with
+                  | Some s' => t :: burst_times c' s' t0
+                  | None => [] end
+      | None => []
+      end
+  end.
+
+Definition e2_model_times (n : nat) (w : Z) (c : nat) : list Z :=
+  let t0 := Z.max w 0 + 1 in
+  map (fun t => t - t0) (burst_times c (settle (init n w t0) t0) t0).
+
+(** an order arrives after the admission of its call, and not absurdly late *)
+Fixpoint arrivals_match (model obs : list Z) : bool :=
+  match model, obs with
+  | [], [] => true
+  | m :: mr, o :: or => (m <=? o) && (o <=? m + late) && arrivals_match mr or
+  | _, _ => false
+  end.
+
+Definition e2_model_ok (c : e2case) : bool :=
+  (e2_failed c =? 0)%nat &&
+  (* a retry succeeds at the test CA at once and then orders from production through the same limiter *)
+  arrivals_match (e2_model_times (e2_n c) (e2_w c) (e2_calls c + e2_retries c)) (e2_arr c) &&
+  arrivals_match (e2_model_times (e2_n c) (e2_w c) (e2_calls2 c)) (e2_arr2 c) &&
+  (length (e2_retry c) =? e2_retries c)%nat && forallb (fun t => (0 <=? t) && (t <=? late)) (e2_retry c).
+
+(** the property at the CA: the calls began at 0 or later, so at most n orders of one account
+    arrive before w, at most 2n before 2w, ...: the j-th arrival is not before (j / n) * w *)
+Fixpoint arrivals_spaced (n : nat) (w : Z) (j : nat) (l : list Z) : bool :=
+  match l with
+  | [] => true
+  | t :: r => (Z.of_nat (Nat.div j n) * w <=? t) && arrivals_spaced n w (S j) r
+  end.
+
+Definition e2_spec_ok (c : e2case) : bool :=
+  match e2_n c with
+  | O => true
+  | n => arrivals_spaced n (e2_w c) 0 (e2_arr c) && arrivals_spaced n (e2_w c) 0 (e2_arr2 c) &&
+         (length (e2_arr c) <=? e2_calls c + e2_retries c)%nat && (length (e2_arr2 c) <=? e2_calls2 c)%nat
+  end.
+
 (** * Wire *)
 
-Inductive anycase := AHistory (c : tcase) | AFirst (c : ftcase) | AStress (c : stcase) | ARace (c : rdcase).
+Inductive anycase := AHistory (c : tcase) | AFirst (c : ftcase) | AStress (c : stcase) | ARace (c : rdcase) | AE2E (c : e2case).
 
 Definition get_zlist : dec (list Z) := get_list get_z.
 Definition get_op : dec op :=
@@ -423,12 +483,16 @@ Definition get_stcase : dec stcase :=
    cr <- get_bool ;; pr <- get_bool ;; fr <- get_bool ;; a <- get_nat ;; st <- get_nat ;;
    ret (ST n0 f sz n w k d cr pr fr a st))%Z.
 Definition get_rdcase : dec rdcase := (r <- get_nat ;; d <- get_nat ;; ret (RD r d))%Z.
+Definition get_e2case : dec e2case :=
+  (n <- get_nat ;; w <- get_z ;; c <- get_nat ;; r <- get_nat ;; c2 <- get_nat ;;
+   a <- get_zlist ;; a2 <- get_zlist ;; ra <- get_zlist ;; f <- get_nat ;; ret (E2 n w c r c2 a a2 ra f))%Z.
 Definition get_case : dec anycase :=
   (kind <- get_z ;;
    if kind =? 0 then (c <- get_tcase ;; ret (AHistory c))
    else if kind =? 1 then (c <- get_ftcase ;; ret (AFirst c))
    else if kind =? 2 then (c <- get_stcase ;; ret (AStress c))
-   else (c <- get_rdcase ;; ret (ARace c)))%Z.
+   else if kind =? 3 then (c <- get_rdcase ;; ret (ARace c))
+   else (c <- get_e2case ;; ret (AE2E c)))%Z.
 
 Definition check_line (l : list Z) : Z :=
   match decode get_case l with
@@ -436,6 +500,7 @@ Definition check_line (l : list Z) : Z :=
   | Some (AFirst c) => code (ft_model_ok c) (ft_spec_ok c)
   | Some (AStress c) => code (st_model_ok c) (st_spec_ok c)
   | Some (ARace c) => code (rd_ok c) (rd_ok c)
+  | Some (AE2E c) => code (e2_model_ok c) (e2_spec_ok c)
   | None => code_decode_error
   end.
 
@@ -449,5 +514,6 @@ Definition explain_line (l : list Z) : list Z :=
                         | Some (pr, a) => [if pr then 1 else 0; Z.of_nat a]
                         | None => [-1] end
   | Some (ARace c) => [Z.of_nat (rd_races c); Z.of_nat (rd_died c)]
+  | Some (AE2E c) => e2_model_times (e2_n c) (e2_w c) (e2_calls c + e2_retries c)
   | None => []
   end.
